@@ -323,6 +323,8 @@ impl State {
                 // Subtle: don't just swap the RefMuts! Swap the vecs.
                 std::mem::swap(&mut *stack, &mut *alt);
                 drop(stack);
+                #[cfg(cormacrelf_incremental_rs_verif)]
+                crate::verif::probe(crate::verif::Probe::DeadVarsLoopIteration);
                 for var in alt.drain(..) {
                     let Some(var) = var.upgrade() else { continue };
                     tracing::debug!("dead_vars: found var with {:?}", var.id());
@@ -412,6 +414,8 @@ impl State {
             let Some(node) = node.upgrade() else { continue };
             if node.is_valid() {
                 if node.should_be_invalidated() {
+                    #[cfg(cormacrelf_incremental_rs_verif)]
+                    crate::verif::probe(crate::verif::Probe::PropagateInvalidityInvalidated);
                     node.invalidate_node(self);
                 } else {
                     /* [Node.needs_to_be_computed node] is true because
@@ -436,6 +440,8 @@ impl State {
                     true, and because computing it takes O(number of children), node can be pushed
                     on the stack once per child, and expert nodes can have lots of children. */
                     if !node.is_in_recompute_heap() {
+                        #[cfg(cormacrelf_incremental_rs_verif)]
+                        crate::verif::probe(crate::verif::Probe::PropagateInvalidityRequeued);
                         self.recompute_heap.insert(node);
                     }
                 }
@@ -462,6 +468,8 @@ impl State {
         ah_heap.set_max_height_allowed(new_max_height);
         drop(ah_heap);
         self.recompute_heap.set_max_height_allowed(new_max_height);
+        #[cfg(cormacrelf_incremental_rs_verif)]
+        crate::verif::probe(crate::verif::Probe::SetMaxHeightResized);
     }
 
     pub(crate) fn set_height(&self, node: NodeRef, height: i32) {
